@@ -20,11 +20,13 @@ RULE = ("spec: TLC exhaustive over every DAG/outcome/mode of the listed configs 
         "API trace against JobSysTrace.tla and as a hook trace against SchedTrace.tla")
 
 
-def generic(prop, quick_cfgs, thorough_cfgs, qruns=600, truns=6000, qscripts=300, tscripts=3000, sim_kw=None):
+def generic(prop, quick_cfgs, thorough_cfgs, qruns=600, truns=6000, qscripts=300, tscripts=3000, sim_kw=None, extra=None):
     def check(c):
         S.tlc_spec(c, quick_cfgs if c.quick else thorough_cfgs)
         batches = [("random", rnd(c, qruns if c.quick else truns)),
                    ("scripted", scripts(c, qscripts if c.quick else tscripts, **(sim_kw or {})))]
+        for name, fn in (extra or []):
+            batches.append((name, fn(c)))
         if not c.quick:
             batches.append(("random-big", rnd(c, truns // 6, maxj=30, maxn=8)))
         S.conformance(c, batches, hook_limit=150 if c.quick else 1500)
@@ -86,7 +88,8 @@ def c12(c):
 
 
 REGISTRY = {
-    "C01": generic("C01", ["q_dup"], ["q_dup", "t_ff4", "t_coe4"]),
+    "C01": generic("C01", ["q_dup"], ["q_dup", "t_ff4", "t_coe4"],
+                   extra=[("fanin", lambda c: ["-mode", "fanin", "-seed", c.seed, "-runs", 6 if c.quick else 60, "-maxj", 600, "-maxn", 8])]),
     "C03": generic("C03", ["q_exit"], ["q_exit", "t_n3"]),
     "C05": generic("C05", ["q_exit", "q_can"], ["q_exit", "q_can", "t_all3", "t_ff4"]),
     "C06": generic("C06", ["q_ff"], ["q_ff", "t_all3", "t_ff4"]),
